@@ -113,7 +113,13 @@ def validate(seed, n_traces, length, family, nprimes=8, timeout=1800):
                 if st["mid"]:
                     expect[st["mid"]] = st["mo"]
                     check_snapshot(ob["mut"], st["mo"], "mutated")
-                if ob["ret"] is not None:
+                if ob["ret"] is not None and ev["op"] in ("Integrate", "IntegrateLogFactor"):
+                    mass = np.exp(np.asarray(to_float(st["ret"]["ln"]), dtype=float))
+                    c = np.asarray(to_float(st["ret"]["c"]), dtype=float)
+                    if ev["op"] == "IntegrateLogFactor":
+                        c = c + np.asarray(to_float(st["ret"]["lnc"]), dtype=float)
+                    cmp_lin("return", ob["ret"], mass.reshape((-1,) + (1,) * (c.ndim - 1)) * c)
+                elif ob["ret"] is not None:
                     ln = to_float(st["ret"]["ln"])
                     if ev["op"] == "Query" and not ev["q"].startswith("log"):
                         cmp_exp("return", ob["ret"], ln)
